@@ -206,6 +206,84 @@ M('tool-prefix-from-joined-name', 'fault', ['C20', 'C18'], ['SA-STR.tool'],
 M('twin-tool-reformat', 'twin', ['C20'], [],
   [(GEN, "            rr_name = None\n            if args.rational_rock or args.rock:\n                rr_name = basename\n", "            rr_name = None\n            want_rr = args.rational_rock or args.rock\n            if want_rr:\n                rr_name = basename\n")])
 
+# ---------------------------------------------------------------- packing / fit / accounting / identity (from the sub-agent seeds)
+M('writer-breaks-sector-one-early', 'fault', ['C01', 'C03', 'C04'], ['SA-SIB.packing.iso'],
+  [(PY, "                if (curr_dirrecord_offset + len(recstr)) > self.logical_block_size:", "                if (curr_dirrecord_offset + len(recstr)) >= self.logical_block_size:")], '_write_directory_records')
+M('accounting-breaks-sector-one-early', 'fault', ['C01', 'C03', 'C04'], ['SA-SIB.packing.iso'],
+  [(DR, "            if (dirrecord_offset + dirrecord_len) > logical_block_size:", "            if (dirrecord_offset + dirrecord_len) >= logical_block_size:")], '_recalculate_extents_and_offsets')
+M('twin-packing-flipped-operands', 'twin', ['C01', 'C03', 'C04'], [],
+  [(PY, "                if (curr_dirrecord_offset + len(recstr)) > self.logical_block_size:", "                if self.logical_block_size < len(recstr) + curr_dirrecord_offset:")])
+M('twin-packing-negated-temp', 'twin', ['C01', 'C03', 'C04'], [],
+  [(DR, "            if (dirrecord_offset + dirrecord_len) > logical_block_size:", "            end_of_record = dirrecord_offset + dirrecord_len\n            if not end_of_record <= logical_block_size:")])
+M('udf-fid-block-step-late', 'fault', ['C01', 'C04', 'C05', 'C10'], ['SA-SIB.packing.udf'],
+  [(PY, "                if offset >= self.logical_block_size:\n                    current_extent += 1", "                if offset > self.logical_block_size:\n                    current_extent += 1")], '_udf_assign_extents')
+M('udf-fid-tail-block-early', 'fault', ['C04', 'C05', 'C10'], ['SA-SIB.packing.udf'],
+  [(PY, "            if offset > self.logical_block_size:\n                current_extent += 1", "            if offset >= self.logical_block_size:\n                current_extent += 1")], 'after')
+M('twin-udf-fid-flipped', 'twin', ['C04', 'C05', 'C10'], [],
+  [(PY, "                if offset >= self.logical_block_size:\n                    current_extent += 1", "                if not offset < self.logical_block_size:\n                    current_extent += 1")])
+M('ce-gap-off-by-one', 'fault', ['C04', 'C08'], ['SA-FIT.ce_block'],
+  [(RR, "                gapsize = entry.offset - lastend - 1\n", "                gapsize = entry.offset - lastend\n")], 'gapsize')
+M('ce-tail-allows-overflow', 'fault', ['C04', 'C08'], ['SA-FIT.ce_block'],
+  [(RR, "                left = self._max_block_size - lastend - 1\n", "                left = self._max_block_size - lastend\n")], 'left >= length')
+M('ce-placement-overlaps-previous', 'fault', ['C04', 'C08'], ['SA-FIT.ce_block'],
+  [(RR, "                if gapsize >= length:\n                    # We found a spot for it!\n                    offset = lastend + 1\n", "                if gapsize >= length:\n                    # We found a spot for it!\n                    offset = lastend\n")], 'lower')
+M('ce-track-bound-dropped', 'fault', ['C04', 'C08'], ['SA-FIT.ce_block'],
+  [(RR, "        if offset + length > self._max_block_size:\n            raise pycdlibexception.PyCdlibInvalidISO('No room in continuation block to track entry')\n", "")], 'track_entry')
+M('twin-ce-gap-rewritten', 'twin', ['C04', 'C08'], [],
+  [(RR, "                lastend = lastentry.offset + lastentry.length - 1\n                gapsize = entry.offset - lastend - 1\n", "                lastend = lastentry.offset + lastentry.length - 1\n                gapsize = entry.offset - (lastentry.offset + lastentry.length)\n")])
+M('link-search-by-equality', 'fault', ['C02', 'C07', 'C16'], ['SA-IDENT'],
+  [(PY, "                    link = reclink[0]\n                    if id(link) == id(rec):\n                        found_index = index\n                        break\n                else:\n                    # This should never happen.\n                    raise pycdlibexception.PyCdlibInternalError('Could not find inode corresponding to record')",
+    "                    link = reclink[0]\n                    if link == rec:\n                        found_index = index\n                        break\n                else:\n                    # This should never happen.\n                    raise pycdlibexception.PyCdlibInternalError('Could not find inode corresponding to record')")], 'link == rec')
+M('bootcat-check-by-membership', 'fault', ['C02', 'C07', 'C16'], ['SA-IDENT'],
+  [(PY, "            if any(id(child) == id(rec) for rec in self.eltorito_boot_catalog.dirrecords):\n                raise pycdlibexception.PyCdlibInvalidInput(\"Cannot remove a file that is referenced by El Torito; use 'rm_eltorito' to remove El Torito, or use 'rm_hard_link' to hide the entry\")\n\n        num_bytes_to_remove = 0",
+    "            if child in self.eltorito_boot_catalog.dirrecords:\n                raise pycdlibexception.PyCdlibInvalidInput(\"Cannot remove a file that is referenced by El Torito; use 'rm_eltorito' to remove El Torito, or use 'rm_hard_link' to hide the entry\")\n\n        num_bytes_to_remove = 0")], 'child in')
+M('twin-identity-with-is', 'twin', ['C02', 'C07', 'C16'], [],
+  [(PY, "                if id(rec) == id(found_record):", "                if rec is found_record:")])
+M('dir-shrink-overwrites-length', 'fault', ['C03', 'C04', 'C05', 'C10'], ['SA-ACCT.inverse'],
+  [(DR, "            self.data_length -= logical_block_size\n", "            self.data_length = logical_block_size\n")], 'self.data_length')
+M('space-size-remove-floor', 'fault', ['C03', 'C04', 'C05', 'C10'], ['SA-ACCT.inverse'],
+  [(HVD, "        self.space_size -= utils.ceiling_div(removal_bytes, self.log_block_size)", "        self.space_size -= removal_bytes // self.log_block_size")], 'space_size')
+M('udf-remove-forgets-blocks-recorded', 'fault', ['C03', 'C04', 'C05', 'C10'], ['SA-ACCT.inverse'],
+  [(UDF, "        new_num_extents = utils.ceiling_div(self.info_len, logical_block_size)\n        self.log_block_recorded = new_num_extents\n        self.alloc_descs[0].extent_length = self.info_len\n\n        del self.fi_descs[desc_index]", "        new_num_extents = utils.ceiling_div(self.info_len, logical_block_size)\n        self.alloc_descs[0].extent_length = self.info_len\n\n        del self.fi_descs[desc_index]")], 'log_block_recorded')
+M('udf-add-old-extents-from-cache', 'fault', ['C04', 'C05', 'C10'], ['SA-ACCT.delta'],
+  [(UDF, "        if self.info_len > 0:\n            old_num_extents = utils.ceiling_div(self.info_len, logical_block_size)\n", "        if self.info_len > 0:\n            old_num_extents = self.log_block_recorded\n")], 'add_file_ident_desc')
+M('delta-of-joliet-child-dropped', 'fault', ['C04', 'C05'], ['SA-ACCT.dropped'],
+  [(PY, "            num_bytes_to_remove += self._remove_child_from_dr(joliet_child,\n                                                          joliet_child.index_in_parent)", "            self._remove_child_from_dr(joliet_child,\n                                       joliet_child.index_in_parent)")], '_rm_joliet_dir')
+M('twin-acct-temp-for-unit', 'twin', ['C03', 'C04', 'C05', 'C10'], [],
+  [(HVD, "        self.space_size -= utils.ceiling_div(removal_bytes, self.log_block_size)", "        removed_blocks = utils.ceiling_div(removal_bytes, self.log_block_size)\n        self.space_size -= removed_blocks")])
+M('eltorito-link-lists-inode-again', 'fault', ['C04', 'C07'], ['SA-FRESH.inodes'],
+  [(PY, "            if entry_extent in extent_to_inode:\n                ino = extent_to_inode[entry_extent]\n            else:\n                ino = inode.Inode()\n                ino.parse(entry_extent, entry.length(), self._cdfp,\n                          self.logical_block_size)\n                extent_to_inode[entry_extent] = ino\n                self.inodes.append(ino)\n",
+    "            ino = extent_to_inode.get(entry_extent)\n            if ino is None:\n                ino = inode.Inode()\n                ino.parse(entry_extent, entry.length(), self._cdfp,\n                          self.logical_block_size)\n                extent_to_inode[entry_extent] = ino\n            self.inodes.append(ino)\n")], '_link_eltorito')
+M('twin-eltorito-link-get', 'twin', ['C04', 'C07'], [],
+  [(PY, "            if entry_extent in extent_to_inode:\n                ino = extent_to_inode[entry_extent]\n            else:\n                ino = inode.Inode()\n                ino.parse(entry_extent, entry.length(), self._cdfp,\n                          self.logical_block_size)\n                extent_to_inode[entry_extent] = ino\n                self.inodes.append(ino)\n",
+    "            known = extent_to_inode.get(entry_extent)\n            if known is not None:\n                ino = known\n            else:\n                ino = inode.Inode()\n                ino.parse(entry_extent, entry.length(), self._cdfp,\n                          self.logical_block_size)\n                extent_to_inode[entry_extent] = ino\n                self.inodes.append(ino)\n")])
+M('modify-in-place-mixes-records', 'fault', ['C02', 'C09', 'C17'], ['SA-COORD'],
+  [(PY, "                abs_extent_loc = record.parent.extent_location() + record.extents_to_here - 1", "                abs_extent_loc = record.parent.extent_location() + child.extents_to_here - 1")], 'modify_file_in_place')
+M('remove-child-index-of-other-record', 'fault', ['C02', 'C09', 'C17'], ['SA-COORD'],
+  [(PY, "            num_bytes_to_remove += self._remove_child_from_dr(joliet_child,\n                                                          joliet_child.index_in_parent)", "            num_bytes_to_remove += self._remove_child_from_dr(joliet_child,\n                                                          child.index_in_parent)" )], '_rm_joliet_dir')
+M('twin-coord-alias-free', 'twin', ['C02', 'C09', 'C17'], [],
+  [(PY, "                offset = record.offset_to_here - record.dr_len\n", "                offset = -record.dr_len + record.offset_to_here\n")])
+M('xa-added-after-length-check', 'fault', ['C13'], ['SA-LENBOUND'],
+  [(DR, "            self.xa_record.new()\n            self.dr_len += XARecord.length()\n\n        self.dr_len += (self.dr_len % 2)\n\n        if self.dr_len > 255:\n            raise pycdlibexception.PyCdlibInvalidInput('Name is too long to fit in a directory record')\n",
+    "            self.xa_record.new()\n\n        self.dr_len += (self.dr_len % 2)\n\n        if self.dr_len > 255:\n            raise pycdlibexception.PyCdlibInvalidInput('Name is too long to fit in a directory record')\n        if xa:\n            self.dr_len += XARecord.length()\n")], 'dr_len')
+M('walk-uses-unbound-ino', 'fault', ['C15'], ['SA-EXC.unbound'],
+  [(PY, "                        if new_record.inode is not None:\n                            new_record.inode.data_length = iso_file_length - extent_to_use * self.logical_block_size\n",
+    "                        if new_record.inode is not None:\n                            ino.data_length = iso_file_length - extent_to_use * self.logical_block_size\n")], '_walk_directories|ino')
+M('twin-unbound-correlated', 'twin', ['C15'], [],
+  [(DR, "        else:\n            record_offset = 33\n", "        else:\n            record_offset = 32\n            record_offset += 1\n")])
+M('tool-unbound-after-skip', 'fault', ['C20'], ['SA-EXC.unbound_tool'],
+  [(GEN, "                    print('Symlink %s ignored - continuing.' % (localpath),\n                          file=logfp)\n                    continue\n", "                    print('Symlink %s ignored - continuing.' % (localpath),\n                          file=logfp)\n")], 'iso_path')
+M('efi-update-skipped-when-unmoved', 'fault', ['C06', 'C11', 'C12'], ['SA-RESHUFFLE.mustwrite'],
+  [(ISOH, "        self.efi_lba = current_extent\n        self.efi_count = sector_count\n", "        if current_extent == self.efi_lba and sector_count == self.efi_count:\n            return\n\n        self.efi_lba = current_extent\n        self.efi_count = sector_count\n")], 'update_efi')
+M('twin-mac-update-skipped-when-unmoved', 'twin', ['C06', 'C11', 'C12'], [],
+  [(ISOH, "        self.mac_lba = current_extent\n        self.mac_count = sector_count\n", "        if current_extent == self.mac_lba and sector_count == self.mac_count:\n            return\n\n        self.mac_lba = current_extent\n        self.mac_count = sector_count\n")])
+M('second-section-skips-finish', 'fault', ['C06', 'C11', 'C12'], ['SA-RESHUFFLE.flag'],
+  [(PY, "            self.eltorito_boot_catalog.add_section(bootfile_dirrecord.inode,\n", "            if False:\n                self._finish_add(0, 0)\n            self.eltorito_boot_catalog.add_section(bootfile_dirrecord.inode,\n")], '')
+M('edit-reads-ce-block-extent', 'fault', ['C06'], ['SA-RESHUFFLE.isolation'],
+  [(HVD, "        for index, block in enumerate(self.rr_ce_blocks):\n            offset = block.add_entry(length)\n", "        for index, block in enumerate(self.rr_ce_blocks):\n            if block.extent_location() < 0:\n                continue\n            offset = block.add_entry(length)\n")], 'add_rr_ce_entry')
+M('pass-accumulates', 'fault', ['C06'], ['SA-RESHUFFLE.pure'],
+  [(ISOH, "        self.efi_lba = current_extent\n", "        self.efi_lba += current_extent\n")], 'update_efi')
+
 
 def applicable(m, sources):
     for rel, old, new in m['edits']:
